@@ -266,7 +266,7 @@ def replay_calls(rec):
 
 # ----------------------------------------------------------------------------- both stages, called from c17.run
 
-def run_stage(V, get, tier, seed):
+def run_stage(V, get, tier, seed, pm):
     """Runs stages Q and F; returns the coverage dict to merge into the evidence.  Never raises a violation except
     for what an import delivers (C17 text)."""
     cov = {}
@@ -276,7 +276,7 @@ def run_stage(V, get, tier, seed):
         V.notes.append(f"DipQuery: invariant {r.violated} violated (design-level): {r.cex[:400]}")
     recs = r.records
     r.records, r.stdout = None, ""
-    res = C.pmap(replay_list, recs, chunk=8)
+    res = pm("qlist", replay_list, recs)
     counts, devs, firsts = collections.Counter(), collections.Counter(), {}
     for rec, outs in zip(recs, res):
         for area, verdict, dev, det in outs:
